@@ -107,6 +107,8 @@ struct Scope {
     in_arrow_default: bool,
     in_class_field: bool,
     this_ok: bool,
+    /// inside a class member (or an arrow nested in one): `super.p` is legal
+    super_ok: bool,
 }
 
 pub struct Gen<'t, 'a> {
@@ -811,6 +813,11 @@ impl<'t, 'a> Gen<'t, 'a> {
             self.redirect("compound_effectful_target");
             obj = self.ident();
         }
+        if self.sc().super_ok && self.t.chance(90) {
+            // `super.p += s`, `super[k()] += s`, `super.p.q += s`
+            self.tag("super-target");
+            obj = if self.t.chance(80) { E::Member { obj: E::Raw("super".into()).bx(), prop: self.t.pick(PROPS).to_string(), optional: false } } else { E::Raw("super".into()) };
+        }
         let target = if self.t.flag() {
             E::Member { obj: obj.bx(), prop: self.t.pick(PROPS).to_string(), optional: false }
         } else {
@@ -825,6 +832,13 @@ impl<'t, 'a> Gen<'t, 'a> {
         if op == "+=" {
             self.tag("add-assign-member");
         }
+        // `(o.p) += s`: a parenthesised member is a legal assignment target too
+        let target = if self.t.chance(25) {
+            self.tag("paren-target");
+            target.paren()
+        } else {
+            target
+        };
         E::Assign(op, target.bx(), self.guard_literal_sum(r).bx()).paren()
     }
 
@@ -852,8 +866,15 @@ impl<'t, 'a> Gen<'t, 'a> {
         sc.in_class_field = false;
         if !is_arrow {
             sc.this_ok = true;
+            sc.super_ok = false;
         }
         self.scopes.push(sc);
+    }
+
+    /// scope of a class member body (method, accessor, constructor, static method): `super.p` is legal there
+    fn push_member_scope(&mut self, params: &[String]) {
+        self.push_fn_scope(params, false, false, false);
+        self.scopes.last_mut().unwrap().super_ok = true;
     }
 
     fn arrow_use(&mut self, d: usize) -> E {
@@ -1695,19 +1716,19 @@ impl<'t, 'a> Gen<'t, 'a> {
             members.push(format!("static sfld = {};", Self::arg_text(&e2)));
         }
         // constructor
-        self.push_fn_scope(&[p.clone()], false, false, false);
+        self.push_member_scope(&[p.clone()]);
         let ce = self.expr(d);
         self.scopes.pop();
         members.push(format!("constructor({p}) {{ this.p = {}; }}", Self::arg_text(&ce)));
         // method
         let mp = self.fresh("p");
-        self.push_fn_scope(&[mp.clone()], false, false, false);
+        self.push_member_scope(&[mp.clone()]);
         let mbody = self.fn_body(d, sd, true);
         self.scopes.pop();
         members.push(format!("m({mp}) {mbody}"));
         // getter, static method, static block, computed member name
         if self.t.flag() {
-            self.push_fn_scope(&[], false, false, false);
+            self.push_member_scope(&[]);
             let ge = self.expr(d);
             self.scopes.pop();
             self.tag("getter");
@@ -1715,14 +1736,14 @@ impl<'t, 'a> Gen<'t, 'a> {
         }
         if self.t.flag() {
             let sp = self.fresh("p");
-            self.push_fn_scope(&[sp.clone()], false, false, false);
+            self.push_member_scope(&[sp.clone()]);
             let se = self.expr(d);
             self.scopes.pop();
             members.push(format!("static sm({sp}) {{ return {}; }}", se.print()));
         }
         if self.t.chance(80) {
             let sp = self.fresh("p");
-            self.push_fn_scope(&[sp.clone()], false, false, false);
+            self.push_member_scope(&[sp.clone()]);
             let se = self.expr(d);
             self.scopes.pop();
             self.tag("class-setter-private");
@@ -1785,6 +1806,7 @@ impl<'t, 'a> Gen<'t, 'a> {
             in_arrow_default: false,
             in_class_field: false,
             this_ok: false,
+            super_ok: false,
         };
         self.scopes.push(root);
         let mut src = String::new();
